@@ -819,8 +819,13 @@ func leastRequests(upstreams []*Upstream) *Upstream {
 		}
 		// If bestReqs was just initialized to -1
 		// we need to append upstream also
-		if reqs <= bestReqs || bestReqs == -1 {
+		if reqs < bestReqs || bestReqs == -1 {
+			// strictly fewer requests than any candidate so far:
+			// the previous candidates are no longer minimal
 			bestReqs = reqs
+			best = best[:0]
+		}
+		if reqs == bestReqs {
 			best = append(best, upstream)
 		}
 	}
